@@ -45,13 +45,14 @@ pub fn type_of_block(block: &[u8]) -> Option<usize> {
 }
 
 /// What the statement lets us say about the type a sign reports after accepting `block`:
-/// the exact block of a supported type -> that type; a family/id pair no supported type carries -> no type;
-/// a supported type's family/id with *different* contents -> not determined (a forged / unknown variant).
+/// the exact block of a supported type -> that type; anything else -> not determined by the statement.
 pub fn type_knowledge_of_block(block: &[u8]) -> TypeKnowledge {
     match type_of_block(block) {
         Some(i) if block == &BLOCKS[i][..] => TypeKnowledge::Is(Some(i)),
         Some(_) => TypeKnowledge::Unconstrained,
-        None => TypeKnowledge::Is(None),
+        // a family/id pair none of the 11 types known to this harness carries: today the sign reports no type,
+        // but a sign type added later would legitimately be reported, so nothing is demanded
+        None => TypeKnowledge::Unconstrained,
     }
 }
 
